@@ -960,10 +960,7 @@ class Message(ABC):
             value = self.__raw_get(name)
             if value is not PLACEHOLDER:
                 kwargs[name] = deepcopy(value)
-        new = self.__class__(**kwargs)  # type: ignore
-        new.__dict__["_unknown_fields"] = self._unknown_fields
-        new.__dict__["_serialized_on_wire"] = self._serialized_on_wire
-        return new
+        return self.__rebuild(kwargs)
 
     def __copy__(self: T, _: Any = {}) -> T:
         kwargs = {}
@@ -971,7 +968,19 @@ class Message(ABC):
             value = self.__raw_get(name)
             if value is not PLACEHOLDER:
                 kwargs[name] = value
+        return self.__rebuild(kwargs)
+
+    def __rebuild(self: T, kwargs: Dict[str, Any]) -> T:
+        # Assigning a sub-message that has no fields marks it as present (see
+        # __setattr__): keep the presence the sub-messages had before.
+        presence = {
+            name: value._serialized_on_wire
+            for name, value in kwargs.items()
+            if isinstance(value, Message)
+        }
         new = self.__class__(**kwargs)  # type: ignore
+        for name, was_present in presence.items():
+            kwargs[name].__dict__["_serialized_on_wire"] = was_present
         new.__dict__["_unknown_fields"] = self._unknown_fields
         new.__dict__["_serialized_on_wire"] = self._serialized_on_wire
         return new
